@@ -31,6 +31,8 @@ THEOREMS = [
     "Ts.Glob.glob_subtree_sibling",
     "Ts.Glob.glob_star_all",
     "Ts.Glob.glob_literal",
+    "Ts.Glob.replicated_iff",
+    "Ts.Glob.replicatedPaths_eq",
 ]
 BUDGET_S = (100, 840)
 RULE = ("partition: W in 1..8 simulated ranks, random flat states of replicated / non-replicated tensors and objects with "
